@@ -21,11 +21,17 @@ class Module:
             "module probe\n\ngo 1.21\n\nrequire github.com/gontainer/gontainer-helpers/v3 %s\n" % helpers_version())
         shutil.copy(os.path.join(core.REPO, "go.sum"), os.path.join(root, "go.sum"))
         src = open(os.path.join(core.VERIF, "tools", "probe", "fx.go.txt")).read()
-        for path, name in ((gen.FX, "fx"), (gen.FX2, "pkg"), ("probe/exp1/os", "os"), ("probe/deep/fx", "fx")):
+        self.thin = open(os.path.join(core.VERIF, "tools", "probe", "fxthin.go.txt")).read()
+        for path, name in ((gen.FX, "fx"), (gen.FX2, "pkg"), ("probe/exp1/os", "os"), ("probe/deep/fx", "fx"), ("probe/x-y/v2", "v2"), ("probe/a.b/fx", "fx")):
             d = os.path.join(root, path[len("probe/"):])
             os.makedirs(d, exist_ok=True)
-            open(os.path.join(d, "fx.go"), "w").write(src.replace("PKGNAME", name).replace("PKGID", path))
+            text = src if path == gen.FX else self.thin
+            open(os.path.join(d, "fx.go"), "w").write(text.replace("PKGNAME", name).replace("PKGID", path))
         self.pkgs = []
+
+    def add_local(self, name, pkgname):
+        """symbols of the generated package itself (for `"."` references): unlabelled copies of the fixture symbols"""
+        self.write(name + "/zz_local.go", self.thin.replace("PKGNAME", pkgname).replace("PKGID", ""))
 
     def gen_pkg(self, name, yaml_files, flags=(), env=None, pkgname=None):
         """run the CLI on the yaml files, writing <name>/gen.go; returns (exit, stdout)"""
